@@ -497,6 +497,7 @@ var kfC06c = []hdrCase{
 	buildHdrCase(true, true, "gzipped", "identity", "application/json", nil, nil, false, false, []byte(`{"k":1}`)),
 	buildHdrCase(true, true, "vibrato, deflate", "gzip", "image/png", nil, nil, true, false, gz([]byte("hello world"), 6)),
 }
+
 // kfC06d: the former finding C06-d (no-transform on a Cache-Control line other than the first was
 // missed by Header.Get), repaired in proxy.go (the gate tests all Cache-Control lines); regression
 // cases: the origin's response must arrive unchanged.
